@@ -33,6 +33,11 @@ class ExpQMap:
         self.remove([qubit])
         self.exp_map[exp] = qubit
 
+    def remove_symbol(self, sym):
+        """Remove the expressions that mention a symbol (it is being rebound)"""
+        for exp in [e for e in self.exp_map.keys() if sym in e.free_symbols]:
+            del self.exp_map[exp]
+
     def remove(self, qubits: List[int]):
         """Remove qubits from the mapping"""
         todel = []
